@@ -32,4 +32,4 @@ impl Format {
 // Verification hook (inert unless built by `cargo kani`): harnesses for the private items of this module.
 #[cfg(kani)]
 #[path = "/verif/kani/incrate/h_spectrum_io.rs"]
-mod verif_kani;
+pub(crate) mod verif_kani;
